@@ -209,6 +209,9 @@ impl Parser {
                 self.end_node();
             }
             _ => {
+                // The statement kind was peeked behind an optional label:
+                // the label itself must not be offered to the recovery as an expected token
+                self.opt_label();
                 self.expect_tokens_recover([
                     Keyword(Kw::Block),
                     Keyword(Kw::Process),
